@@ -134,6 +134,32 @@ mut("C03", "isin-skips-type", ("internal/eval/evalers.go", """	if lhs.Type != n.
 		return types.False, nil
 	}"""))
 
+# ---- C04
+mut("C04", "has-fold-entity", ("internal/eval/fold.go", '''				if _, ok := values[0].(types.EntityUID); ok {
+					return newErrorEval(fmt.Errorf("fold.Has.EntityUID"))
+				}
+				return newHasEval(''', '''				return newHasEval('''))
+mut("C04", "fold-in", ("internal/eval/fold.go", '''			func(_ []types.Value) Evaler {
+				return newErrorEval(fmt.Errorf("fold.In.EntityUID"))
+			},''', '''			func(values []types.Value) Evaler {
+				return newInEval(newLiteralEval(values[0]), newLiteralEval(values[1]))
+			},'''))
+mut("C04", "fold-in-place", ("internal/eval/fold.go", '''		p2.Conditions = make([]ast.ConditionType, len(p.Conditions))
+		for i, c := range p.Conditions {''', '''		for i, c := range p.Conditions {'''))
+mut("C04", "and-true-folds-to-rhs", ("internal/eval/fold.go", '''	case ast.NodeTypeAnd:
+		return tryFoldBinary(''', '''	case ast.NodeTypeAnd:
+		if l, ok := fold(v.Left).(ast.NodeValue); ok && l.Value == types.True {
+			return fold(v.Right)
+		}
+		return tryFoldBinary('''))
+mut("C04", "error-folds-to-false", ("internal/eval/fold.go", '''		if err == nil {
+			return ast.NodeValue{Value: v}
+		}''', '''		if err == nil {
+			return ast.NodeValue{Value: v}
+		} else if len(nodes) == 3 {
+			return ast.NodeValue{Value: types.False}
+		}'''))
+
 # ---- C20
 mut("C20", "unmarshal-merges", ("policy_set.go", """	*p = PolicySet{
 		policies: make(PolicyMap, len(jsonPolicySet.StaticPolicies)),
